@@ -12,6 +12,8 @@
 //   P <tid:kind:enabled> ...         pending operation of every thread at that decision
 //   R <tid> <k> <result>             worker <tid> finished its k-th operation
 //   ORACLE lost-wakeup <tid> <n>     a writer sleeps although its request is admissible / refused
+//   ORACLE write-overlaps-unconsumed <tid> <beg> <n> <reader>   (C01/C02) the region just handed to the writer covers bytes a
+//                                    registered reader has not consumed (or the reader has been lapped)
 //   END <ok|DEADLOCK|HANG|STEP-LIMIT|MISUSE|CRASH>
 #define _GNU_SOURCE
 #include <sys/prctl.h>
@@ -48,6 +50,22 @@ static struct thread threads[MAXT];
 // what each worker is doing (for the oracle)
 static volatile long cur_wmap_n[MAXT + 1]; // >0 while inside channel_write_map(n)
 
+// C01/C02 oracle on a region the writer was just handed.  Implementation state only: the bookmarks of the registered
+// readers.  Between the placement (under the lock) and this check a reader can only have advanced, so the check never
+// raises an alarm for a placement that was right when it was made.
+static void check_write_region(int tid, size_t beg, size_t n)
+{
+    if (beg + n > ch.capacity) printf("ORACLE write-overlaps-unconsumed %d %zu %zu -1\n", tid, beg, n);
+    for (unsigned i = 0; i < ch.holds.n && i < MAXR; ++i) {
+        const size_t pos = ch.holds.pos[i], cyc = ch.holds.cycles[i];
+        int bad = 0;
+        if (cyc == ch.cycle) bad = 0;                                   // unconsumed = [pos, head): in front of the region
+        else if (cyc + 1 == ch.cycle) bad = pos < ch.high && beg + n > pos; // unconsumed = [pos, high) and [0, head)
+        else bad = 1;                                                   // lapped
+        if (bad) printf("ORACLE write-overlaps-unconsumed %d %zu %zu %u\n", tid, beg, n, i);
+    }
+}
+
 static int parse_op(char* text, struct op* o)
 {
     memset(o, 0, sizeof(*o));
@@ -74,6 +92,7 @@ static void exec_op(int tid, int k, const struct op* o)
         cur_wmap_n[tid] = o->a;
         unsigned char* p = (unsigned char*)channel_write_map(&ch, (size_t)o->a);
         cur_wmap_n[tid] = 0;
+        if (p && tid >= 0) check_write_region(tid, (size_t)(p - ch.data), (size_t)o->a);
         if (p) snprintf(res, sizeof res, "wok %zu", (size_t)(p - ch.data));
         else snprintf(res, sizeof res, "null");
     } else if (!strcmp(o->name, "wcommit")) {
